@@ -411,9 +411,31 @@ class OrderTags:
         owner = m.cls.name
         tags = set()
         env = {}
+        # containers created empty and filled inside loops take the order of the loop that fills them
+        # (`out = {}; for n in self.view: out[n] = val[n]`)
+        fills = {}
+        for lp in ast.walk(m.node):
+            if isinstance(lp, (ast.For, ast.AsyncFor)):
+                for sub in ast.walk(lp):
+                    nm = None
+                    if isinstance(sub, ast.Assign) and len(sub.targets) == 1 and isinstance(sub.targets[0], ast.Subscript) and isinstance(sub.targets[0].value, ast.Name):
+                        nm = sub.targets[0].value.id
+                    if isinstance(sub, ast.Expr) and isinstance(sub.value, ast.Call) and isinstance(sub.value.func, ast.Attribute) and sub.value.func.attr == "append" and isinstance(sub.value.func.value, ast.Name):
+                        nm = sub.value.func.value.id
+                    if nm is not None:
+                        inner = [l2 for l2 in ast.walk(lp) if isinstance(l2, (ast.For, ast.AsyncFor)) and l2 is not lp and any(x is sub for x in ast.walk(l2))]
+                        if not inner:
+                            fills.setdefault(nm, []).append(lp)
         for st in own_statements(m.node):
             if isinstance(st, ast.Assign) and len(st.targets) == 1 and isinstance(st.targets[0], ast.Name):
-                env[st.targets[0].id] = self.tag(st.value, m, cname, env)
+                nm = st.targets[0].id
+                v = st.value
+                empty = (isinstance(v, (ast.Dict, ast.List)) and not (v.keys if isinstance(v, ast.Dict) else v.elts)) or (isinstance(v, ast.Call) and getattr(v.func, "id", None) in ("dict", "list", "OrderedDict") and not v.args and not v.keywords)
+                if empty and nm in fills:
+                    ts = {self.tag(lp.iter, m, cname, env) for lp in fills[nm]}
+                    env[nm] = ts.pop() if len(ts) == 1 else "OTHER"
+                else:
+                    env[nm] = self.tag(st.value, m, cname, env)
             if isinstance(st, ast.Return) and st.value is not None:
                 tags.add(self.tag(st.value, m, cname, env))
         t = "VIEW" if tags and tags <= {"VIEW", "NESTED:VIEW"} else ("SET" if "SET" in tags else (sorted(tags)[0] if tags else "OTHER"))
@@ -552,7 +574,7 @@ def check_filter(repo, res, idview):
                 comp = find_bunch_comp(branches[mode])
                 if comp is None:
                     raise AnalysisError(f"IDView.{mname}: mode {mode!r} does not assign a comprehension to the bunch (extractor does not recognise the code)")
-                ok, why = comp_matches(comp, mode, opcls, selfn, valp)
+                ok, why = comp_matches(comp, mode, opcls, selfn, valp, view_prefilters(m, selfn))
             elif table is not None and mode in table and mode != "between":
                 ok = table[mode] == OPERATOR_NAMES.get(mode)
                 why = f"operator table maps {mode!r} to operator.{table[mode]}"
@@ -729,9 +751,29 @@ def find_bunch_comp(stmts):
     return None
 
 
-def comp_matches(comp, mode, opcls, selfn, valp):
+def view_prefilters(m, selfn):
+    """Local names bound once to an order-preserving selection of the view: `present = [i for i in self if <test>]`."""
+    defs = {}
+    for st in own_statements(m.node):
+        if isinstance(st, ast.Assign) and len(st.targets) == 1 and isinstance(st.targets[0], ast.Name):
+            defs.setdefault(st.targets[0].id, []).append(st.value)
+    out = {selfn}
+    changed = True
+    while changed:
+        changed = False
+        for nm, vs in defs.items():
+            if nm in out or len(vs) != 1:
+                continue
+            v = vs[0]
+            if isinstance(v, ast.ListComp) and len(v.generators) == 1 and isinstance(v.generators[0].target, ast.Name) and isinstance(v.elt, ast.Name) and v.elt.id == v.generators[0].target.id and isinstance(v.generators[0].iter, ast.Name) and v.generators[0].iter.id in out:
+                out.add(nm)
+                changed = True
+    return out
+
+
+def comp_matches(comp, mode, opcls, selfn, valp, sources=None):
     gen = comp.generators[0]
-    if not (isinstance(gen.iter, ast.Name) and gen.iter.id == selfn):
+    if not (isinstance(gen.iter, ast.Name) and gen.iter.id in (sources or {selfn})):
         return False, f"iterates `{unparse(gen.iter, 40)}` instead of the view itself (result order would not be view order)"
     var = gen.target.id if isinstance(gen.target, ast.Name) else None
     if not (isinstance(comp.elt, ast.Name) and comp.elt.id == var):
